@@ -140,6 +140,7 @@ int main()
         H.send_messages(peer);
         bool disc = node.fDisconnect;
         bool discouraged = S.m_node.banman->IsDiscouraged(node.addr);
-        return std::string(disc ? "1" : "0") + " " + (discouraged ? "1" : "0");
+        std::string extra = action == "tx" ? " m=" + std::to_string(S.m_node.mempool->size()) : "";
+        return std::string(disc ? "1" : "0") + " " + (discouraged ? "1" : "0") + extra;
     });
 }
